@@ -18,8 +18,9 @@ RULE = ("by-construction cases: base notebook with 2-7 cells (minor 5 with uniqu
         "set-execution-count / delete; each side may insert new cells only into gaps whose neighbouring cells the other side did not touch "
         "and where the other side does not insert; sides may change different notebook-metadata keys. The expected merge E is built in the "
         "same draw. Oracle: no decision conflicted and canon(merged)==canon(E), under the default strategy and one sampled configuration. "
-        "Soundness precondition (checked, counted as excluded_ambiguous_alignment otherwise): nbdime's own diff base->side touches only "
-        "cells that side owns. Generic analogue through decide_merge+apply_decisions, enumerated completely: lists of n<=5 (thorough 7) "
+        "Cases are unambiguous by construction; whether nbdime's own diff base->side touches only cells that side owns is measured "
+        "(diff_touches_unowned_cells, empty on the unchanged tree) but never excuses a case. One case in eight is a long notebook / list "
+        "(16-32 items) where one side inserts a block of 8-12 and deletes a block of 8-12 elsewhere while the other edits in between. Generic analogue through decide_merge+apply_decisions, enumerated completely: lists of n<=5 (thorough 7) "
         "distinct items with every owner assignment whose L- and R-owned positions are separated by an untouched item and every action "
         "replace/delete/insert-before, and objects over 4 keys with every disjoint ownership x add/remove/replace/nested-edit. Non-trivial: "
         "both sides own a changed cell and two owned cells are adjacent; distinct = canonical JSON of (base, local, remote).")
@@ -87,7 +88,8 @@ def scripted(draw):
         elif a == "outputs":
             c2 = draw(N.edit_cell(c, minor, ["outputs"]))
         elif a == "metadata":
-            c2["metadata"] = dict(c2["metadata"], **{"edited_by_" + o: draw(st.sampled_from([True, 1, "x", [1], {"k": 0}]))})
+            mk = draw(st.sampled_from(["edited_by_", "2nd_edit_by_", "3d_"])) + o
+            c2["metadata"] = dict(c2["metadata"], **{mk: draw(st.sampled_from([True, 1, "x", [1], {"k": 0}]))})
         elif a == "ec":
             c2["execution_count"] = draw(st.sampled_from([7, 8, 9])) + (c["execution_count"] or 0)
         elif a == "attach":
@@ -144,8 +146,91 @@ def scripted(draw):
             "inserts": {s_: sorted(inserts[s_]) for s_ in ("L", "R")}}
 
 
+@st.composite
+def scripted_large(draw):
+    """A long notebook: one side inserts a block of new cells in one place and deletes a block of its own cells elsewhere
+    (so positions shift by more than the length difference), the other side edits cells in between."""
+    minor = draw(st.sampled_from([5, 5, 4]))
+    n = draw(st.integers(18, 30))
+    cells = []
+    for i in range(n):
+        c = {"cell_type": "code", "metadata": {}, "source": distinct_source(i, 3) + "# cell %d\n" % i, "execution_count": None, "outputs": []}
+        if minor >= 5:
+            c["id"] = "c%d" % i
+        cells.append(c)
+    base = {"nbformat": 4, "nbformat_minor": minor, "metadata": {}, "cells": cells}
+    side = draw(st.sampled_from(["L", "R"]))
+    other = "R" if side == "L" else "L"
+    k = draw(st.integers(8, min(12, n - n // 2)))     # block to delete
+    dstart = draw(st.integers(n // 2, n - k))
+    ins_at = draw(st.integers(0, max(0, dstart - 6)))  # gap for the inserted block, well before the deleted block
+    m = draw(st.integers(8, 12))
+    owners = ["N"] * n
+    for i in range(dstart, dstart + k):
+        owners[i] = side
+    # the other side edits 1-3 cells strictly between the insertion gap and the deleted block, not adjacent to either
+    lo, hi = ins_at + 1, dstart - 2
+    mids = [i for i in range(lo, hi + 1)]
+    edits = draw(st.lists(st.sampled_from(mids), min_size=1, max_size=3, unique=True)) if mids else []
+    for i in edits:
+        owners[i] = other
+    newcells = []
+    for j in range(m):
+        c = {"cell_type": "markdown", "metadata": {}, "source": "## new section %d\n" % j + distinct_source(30 + j, 2)}
+        if minor >= 5:
+            c["id"] = "%snew%d" % (side, j)
+        newcells.append(c)
+
+    def build(sides):
+        out = []
+        for g in range(n + 1):
+            if g == ins_at and side in sides:
+                out.extend(copy.deepcopy(newcells))
+            if g < n:
+                c = copy.deepcopy(cells[g])
+                if owners[g] == side and side in sides:
+                    continue
+                if owners[g] == other and other in sides:
+                    c["source"] = c["source"] + "edited_by_other = True\n"
+                out.append(c)
+        nb = copy.deepcopy(base)
+        nb["cells"] = out
+        return nb
+    L, R = (build(["L"]), build(["R"]))
+    return {"kind": "nb", "base": base, "local": L, "remote": R, "expected": build(["L", "R"]), "owners": owners,
+            "actions": ["block_delete", "block_insert", "edit"], "adjacent": True, "inserts": {side: [ins_at], other: []}, "large": True}
+
+
+@st.composite
+def large_list(draw):
+    n = draw(st.integers(16, 32))
+    base = ["item%d" % i for i in range(n)]
+    side = draw(st.sampled_from(["L", "R"]))
+    k = draw(st.integers(8, min(12, n - n // 2)))
+    dstart = draw(st.integers(n // 2, n - k))
+    ins_at = draw(st.integers(0, max(0, dstart - 6)))
+    m = draw(st.integers(8, 12))
+    mids = list(range(ins_at + 1, dstart - 1))
+    edits = draw(st.lists(st.sampled_from(mids), min_size=1, max_size=3, unique=True)) if mids else []
+
+    def build(sides):
+        out = []
+        for g in range(n + 1):
+            if g == ins_at and side in sides:
+                out.extend("new%d" % j for j in range(m))
+            if g < n:
+                if dstart <= g < dstart + k and side in sides:
+                    continue
+                other = "R" if side == "L" else "L"
+                out.append(base[g] + "_edited" if (g in edits and other in sides) else base[g])
+        return out
+    return {"kind": "list", "base": base, "local": build("L"), "remote": build("R"), "expected": build("LR"), "owners": "large", "actions": ["block"]}
+
+
 def strategy(tier):
-    return st.tuples(scripted(), S.strategy_args()).map(lambda t: dict(t[0], combo=t[1]))
+    small = st.tuples(scripted(), S.strategy_args()).map(lambda t: dict(t[0], combo=t[1]))
+    large = st.tuples(scripted_large(), S.strategy_args()).map(lambda t: dict(t[0], combo=t[1]))
+    return st.one_of(small, small, small, small, small, small, large, large_list())
 
 
 def precheck(case):
@@ -192,8 +277,8 @@ def exhaustive(tier, shard, nshards):
                     return out
                 yield {"kind": "list", "base": base, "local": build("L"), "remote": build("R"), "expected": build("LR"),
                        "owners": "".join(owners), "actions": list(acts)}
-    keys = ["p", "2019", "r", "07"]       # integer-looking keys are ordinary JSON object keys
-    bvals = {"p": 1, "2019": "text\nline\n", "r": {"x": 1, "y": [1, 2]}, "07": [1, 2, 3]}
+    keys = ["p", "2019", "3d_view", "07"]       # integer-looking / digit-leading keys are ordinary JSON object keys
+    bvals = {"p": 1, "2019": "text\nline\n", "3d_view": {"x": 1, "y": [1, 2]}, "07": [1, 2, 3]}
     for present in itertools.product((True, False), repeat=4):
         base = {k: copy.deepcopy(bvals[k]) for k, p in zip(keys, present) if p}
         for owners in itertools.product("LRN", repeat=4):
@@ -282,8 +367,10 @@ def run_case(case):
     ownedL = {i for i, o in enumerate(owners) if o == "L"}
     ownedR = {i for i, o in enumerate(owners) if o == "R"}
     if tl is None or tr is None or not tl <= ownedL or not tr <= ownedR:
-        out.label("excluded_ambiguous_alignment")
-        return out
+        # The cases are unambiguous by construction (unique ids, pairwise dissimilar non-empty sources), so a differ that
+        # attributes a side's change to cells that side does not own is not excused: it is only counted and the merge is
+        # judged all the same (on the unchanged tree this class is empty).
+        out.label("diff_touches_unowned_cells")
     out.nontrivial = bool(case["adjacent"])
     if case["inserts"]["L"] or case["inserts"]["R"]:
         out.label("with_insertions")
@@ -305,10 +392,8 @@ ESSENTIAL_LABELS = {}
 
 def finalize(tier, merged):
     nb = merged["labels"].get("kind_nb", 0)
-    ex = merged["labels"].get("excluded_ambiguous_alignment", 0)
-    if nb and ex / nb > 0.10:
-        raise RuntimeError("more than 10%% of notebook cases excluded as ambiguous alignment (%d/%d): generator regression" % (ex, nb))
-    return {"excluded_ambiguous_alignment_share": round(ex / nb, 4) if nb else 0.0}
+    ex = merged["labels"].get("diff_touches_unowned_cells", 0)
+    return {"diff_touches_unowned_cells_share": round(ex / nb, 4) if nb else 0.0}
 
 
 DISCRIMINATORS = {}
